@@ -17,7 +17,16 @@ GenHeader ==
   \E pk \in {Pick(1..10) # 1} : \E ck \in {Pick(1..10) # 1} : \E sk \in {Pick(1..12) # 1} :
     LET hd == [number |-> n, parentOK |-> pk, signer |-> sg, coinbaseOK |-> ck, diff |-> df, extra |-> ex, structOK |-> sk] IN
     UpdateEff(hd) /\ last' = [act |-> "Update", res |-> Res(Accept(hd)), hd |-> hd]
-MNext == /\ Len(hist) < Depth + 1 /\ number < MaxNumber /\ GenHeader /\ hist' = Append(hist, last')
+GenUpgrade ==
+  \E n \in {Pick({x \in {EpochBelow(number), EpochBelow(number) + Epoch, IF Pick(1..6) = 1 THEN number ELSE EpochBelow(number)} : x > 0 /\ x <= MaxNumber} \cup {Epoch})} :
+  \E sg \in {Pick(Vals)} : \E vs \in {Pick(UpgradeSets)} :
+  \E ex \in {IF Pick(1..8) = 1 THEN {} ELSE IF Pick(1..3) = 1 THEN vs ELSE Pick((SUBSET Vals) \ {{}})} :
+  \E ck \in {Pick(1..10) # 1} : \E sk \in {Pick(1..12) # 1} :
+    LET hd == [number |-> n, parentOK |-> TRUE, signer |-> sg, coinbaseOK |-> ck, diff |-> 2, extra |-> ex, structOK |-> sk] IN
+    UpgradeEff(hd, vs) /\ last' = [act |-> "Upgrade", res |-> Res(UpgradeOK(hd)), hd |-> hd, set |-> vs]
+MNext == /\ Len(hist) < Depth + 1 /\ number < MaxNumber
+         /\ IF UpgradeSets # {} /\ Pick(1..7) = 1 THEN GenUpgrade ELSE GenHeader
+         /\ hist' = Append(hist, last')
 MSpec == MInit /\ [][MNext]_<<vars, hist>>
 Emit == Len(hist) = Depth + 1 => PrintT(<<"MBT", ToJson(hist)>>)
 =============================================================================
